@@ -263,6 +263,11 @@ theorem c03_mass_parameter_barycentric (i : Nat) (h : i < ms.length) :
     (massParams .bary G m0 pj0m nact ms)[i]? = some (pj0m * G) := by
   simp [massParams, etas, h]
 
+/-- MERCURIUS and TRACE (democratic heliocentric, in place): `M_i = G · particles[0].m` -/
+theorem c03_mass_parameter_hybrid (i : Nat) (h : i < ms.length) :
+    (hybridMassParams G m0 ms)[i]? = some (G * m0) ∧ (hybridMassParams G m0 ms).length = ms.length := by
+  simp [hybridMassParams, h]
+
 end mass
 
 /-! ### termination -/
